@@ -63,4 +63,15 @@ InputMode(f, selectorSet) ==
        \/ (Slice(f, 2, 4) \in selectorSet /\ Len(f) <= 10)
     THEN "POLL" ELSE "SET"
 
+(***************************************************************************)
+(* Growth beyond the listed properties: the mode gates of the three entry  *)
+(* points.  A stream reader and UBXReader.parse take GET, SET, POLL and    *)
+(* SETPOLL (0..3); a message is constructed in GET, SET or POLL (0..2).    *)
+(* Anything else is refused at the door with the entry point's own error.  *)
+(***************************************************************************)
+ModeGate(api, m) ==
+    CASE api = "reader"  -> IF m \in 0..3 THEN "ok" ELSE "UBXStreamError"
+      [] api = "parse"   -> IF m \in 0..3 THEN "ok" ELSE "UBXParseError"
+      [] api = "message" -> IF m \in 0..2 THEN "ok" ELSE "UBXMessageError"
+      [] OTHER -> "?"
 =============================================================================
